@@ -15,6 +15,7 @@ import (
 	"pgregory.net/rapid"
 
 	"verif/harness/model"
+	"verif/harness/rig"
 )
 
 // ---------- C10: associations end cleanly and the agent always stops ----------
@@ -23,7 +24,12 @@ type c10Assoc struct {
 	Sess     int    `json:"sess"`
 	Trigger  string `json:"trigger"` // none | release | silence | hbfail
 	JitterMs int    `json:"jitter_ms"`
-	InFlight bool   `json:"inflight"` // a session request is sent at the very moment of the trigger
+	// InFlight: a session request ("mod", "est", "del"; "" = none) is sent LeadMs before the instant at which
+	// the association is expected to be torn down (release datagram, read timeout, heartbeat verdict, Stop()),
+	// so that it is being handled - the datapath stand-in serves every command DelayMs late - when the
+	// teardown begins.
+	InFlight string `json:"inflight,omitempty"`
+	LeadMs   int    `json:"lead_ms,omitempty"`
 }
 
 type c10Case struct {
@@ -32,10 +38,12 @@ type c10Case struct {
 	StopJit  int        `json:"stop_jitter_ms"`
 	HB       bool       `json:"hb"`       // heartbeat timer enabled
 	Release2 bool       `json:"release2"` // the Association Release Request is sent twice back to back
+	DelayMs  int        `json:"delay_ms"` // service delay of every datapath command
 }
 
 func genC10(t *rapid.T) c10Case {
-	c := c10Case{Stop: rapid.Bool().Draw(t, "stop"), StopJit: rapid.IntRange(0, 30).Draw(t, "stopjit"), HB: rapid.Bool().Draw(t, "hb"), Release2: rapid.IntRange(0, 3).Draw(t, "rel2") == 0}
+	c := c10Case{Stop: rapid.Bool().Draw(t, "stop"), StopJit: rapid.IntRange(0, 30).Draw(t, "stopjit"), HB: rapid.Bool().Draw(t, "hb"), Release2: rapid.IntRange(0, 3).Draw(t, "rel2") == 0,
+		DelayMs: rapid.SampledFrom([]int{0, 4, 15}).Draw(t, "delay")}
 	n := rapid.IntRange(0, 4).Draw(t, "n")
 	for i := 0; i < n; i++ {
 		// with heartbeats on, a peer that answers them is never silent: the read timeout is only
@@ -44,8 +52,19 @@ func genC10(t *rapid.T) c10Case {
 		if c.HB {
 			trig = []string{"none", "release", "release", "hbfail", "hbfail"}
 		}
-		c.Assocs = append(c.Assocs, c10Assoc{Sess: rapid.IntRange(0, 3).Draw(t, "sess"), Trigger: rapid.SampledFrom(trig).Draw(t, "trigger"),
-			JitterMs: rapid.IntRange(0, 30).Draw(t, "jit"), InFlight: rapid.Bool().Draw(t, "inflight")})
+		a := c10Assoc{Sess: rapid.IntRange(0, 3).Draw(t, "sess"), Trigger: rapid.SampledFrom(trig).Draw(t, "trigger"),
+			JitterMs: rapid.IntRange(0, 30).Draw(t, "jit"), InFlight: rapid.SampledFrom([]string{"", "mod", "est", "del"}).Draw(t, "inflight"),
+			LeadMs: rapid.IntRange(0, 12).Draw(t, "lead")}
+		if a.InFlight == "est" && a.Trigger == "none" && !c.Stop {
+			a.InFlight = "mod" // the session of an in-flight establishment is only accounted for when its association ends
+		}
+		if (a.InFlight == "mod" || a.InFlight == "del") && a.Sess == 0 {
+			a.InFlight = "est"
+			if a.Trigger == "none" && !c.Stop {
+				a.InFlight = ""
+			}
+		}
+		c.Assocs = append(c.Assocs, a)
 	}
 	return c
 }
@@ -100,8 +119,28 @@ func runC10(c c10Case, ev *Ev) error {
 			idx++
 		}
 	}
+	if c.DelayMs > 0 {
+		d := time.Duration(c.DelayMs) * time.Millisecond
+		r.B.Inject(func(b *rig.Bessd) { b.Delay = func(string, string) time.Duration { return d } })
+	}
+	// the request that is to be in flight when the association is torn down
+	sendInFlight := func(i int, a c10Assoc) {
+		p := run.Peers[i].P
+		switch a.InFlight {
+		case "mod":
+			s := run.Sess[sessOf[i][0]]
+			_ = p.Send(model.Modification(7001, s.UPSEID, "172.31.0.1", model.Op{UpdFARs: []model.FAR{{ID: 2, Action: model.ActDROP, HasFwd: true}}}))
+		case "del":
+			s := run.Sess[sessOf[i][0]]
+			_ = p.Send(model.Deletion(7001, s.UPSEID))
+		case "est":
+			op := c05Sess(200+i, false, false, "")
+			_ = p.Send(model.Establishment(7001, run.Peers[i].NodeID, op.CPSEID, run.Peers[i].IP, op))
+		}
+	}
 	// keep-alives: every association must hear from its peer more often than read_timeout
 	T := time.Now().Add(1100 * time.Millisecond)
+	stopAt := T.Add(time.Duration(c.StopJit) * time.Millisecond)
 	var wg sync.WaitGroup
 	stopKA := make(chan struct{})
 	for i, a := range c.Assocs {
@@ -120,6 +159,10 @@ func runC10(c c10Case, ev *Ev) error {
 			}
 			seq := uint32(1000)
 			fired := false
+			sentIF := a.InFlight == ""
+			lead := time.Duration(a.LeadMs) * time.Millisecond
+			var verdictAt time.Time // hbfail: when the agent is expected to give the peer up
+			var lastSent time.Time
 			for {
 				select {
 				case <-stopKA:
@@ -131,11 +174,36 @@ func runC10(c c10Case, ev *Ev) error {
 					p.SetOnHB(func(int, uint32) (bool, time.Duration) { return false, 0 })
 					fired = true
 				}
+				if a.Trigger == "hbfail" && fired && verdictAt.IsZero() {
+					// the first heartbeat that goes unanswered is retransmitted once after resp_timeout (30 ms)
+					// and given up after another: the teardown starts 60 ms after its first transmission
+					for _, q := range p.HBSeen() {
+						if q.TS.After(lastKA) {
+							verdictAt = q.TS.Add(60 * time.Millisecond)
+							break
+						}
+					}
+				}
+				if !sentIF {
+					var aim time.Time
+					switch {
+					case a.Trigger == "hbfail":
+						aim = verdictAt
+					case a.Trigger == "none" && c.Stop:
+						aim = stopAt
+					case a.Trigger == "silence":
+						aim = lastKA.Add(lead) // the last datagram the peer sends (the read timeout runs from it)
+					}
+					if !aim.IsZero() && !now.Before(aim.Add(-lead)) {
+						sentIF = true
+						sendInFlight(i, a)
+					}
+				}
 				if a.Trigger == "release" && !fired && !now.Before(at) {
 					fired = true
-					if a.InFlight && len(sessOf[i]) > 0 {
-						s := run.Sess[sessOf[i][0]]
-						_ = p.Send(model.Modification(7001, s.UPSEID, "172.31.0.1", model.Op{UpdFARs: []model.FAR{{ID: 2, Action: model.ActDROP, HasFwd: true}}}))
+					if !sentIF {
+						sentIF = true
+						sendInFlight(i, a)
 					}
 					_ = p.Send(model.AssocRelease(7000, run.Peers[i].NodeID))
 					if c.Release2 {
@@ -144,22 +212,19 @@ func runC10(c c10Case, ev *Ev) error {
 					return
 				}
 				silent := (a.Trigger == "silence" || a.Trigger == "hbfail") && now.After(lastKA)
-				if !silent {
+				if !silent && now.Sub(lastSent) >= 15*time.Millisecond {
 					seq++
+					lastSent = now
 					p.Keepalive(0x900000 + seq)
-					if a.InFlight && (a.Trigger == "silence" || a.Trigger == "hbfail") && len(sessOf[i]) > 0 && lastKA.Sub(now) < 20*time.Millisecond && lastKA.After(now) {
-						s := run.Sess[sessOf[i][0]]
-						_ = p.Send(model.Modification(7001, s.UPSEID, "172.31.0.1", model.Op{UpdFARs: []model.FAR{{ID: 2, Action: model.ActDROP, HasFwd: true}}}))
-					}
 				}
-				time.Sleep(15 * time.Millisecond)
+				time.Sleep(2 * time.Millisecond)
 			}
 		}()
 	}
 	stopped := false
 	stopOK := true
 	if c.Stop {
-		time.Sleep(time.Until(T.Add(time.Duration(c.StopJit) * time.Millisecond)))
+		time.Sleep(time.Until(stopAt))
 		stopOK = r.A.StopWithin(15 * time.Second)
 		stopped = true
 	}
@@ -186,6 +251,31 @@ func runC10(c c10Case, ev *Ev) error {
 	installed := map[uint64]bool{}
 	for _, e := range snap.FAR {
 		installed[e.Fseid] = true
+	}
+	// nothing may stay behind for an ended association - also not the session of an establishment that was
+	// in flight when the teardown began - and nothing is deleted twice
+	keep := map[uint64]bool{}
+	for i, a := range c.Assocs {
+		if a.Trigger == "none" && !stopped {
+			for _, si := range sessOf[i] {
+				keep[run.Sess[si].UPSEID] = true
+			}
+		}
+	}
+	for _, e := range snap.FAR {
+		if !keep[e.Fseid] {
+			return fmt.Errorf("after every trigger fired the datapath still holds a FAR entry of F-SEID %#x, which belongs to no session of a surviving association (case %+v)", e.Fseid, c)
+		}
+	}
+	for _, e := range snap.PDR {
+		if !keep[e.Fseid()] {
+			return fmt.Errorf("after every trigger fired the datapath still holds a PDR entry of F-SEID %#x, which belongs to no session of a surviving association", e.Fseid())
+		}
+	}
+	for _, cm := range cmds {
+		if cm.Cmd == "delete" && cm.Err != "" && cm.Err != "injected" {
+			return fmt.Errorf("a delete command for %s %s was answered %q: the entry was deleted twice (or never installed)", cm.Module, cm.Key, cm.Err)
+		}
 	}
 	nTrig := 0
 	for i, a := range c.Assocs {
